@@ -60,6 +60,16 @@ READY = {
         note="Trusted: Lean kernel + standard axioms; hand-written machine and bounding formulas validated by correspondence (the 13 translatable bounding functions are also regenerated and validated by the translator); full power bounds with non-integer exponents outside the limits produce NaN in floats and are excluded from the real-number spec.",
         tech="Lean 4 refinement + invariants by induction over operation / update histories + exact correspondence with the real Accumulator/Updater",
         ref="DESIGN.md §6 C10"),
+    "C11": dict(
+        text="Theorems (Lean 4, core only; deliberately thin): for map-structured batched components projection commutes with stepping over every input sequence; row-wise ring reads/writes with per-position offsets touch only their own column (from C01's per-position refinement lemmas); an expanded selector gives sample b, synapse i the offset of synapse i; a batched accumulation with sum-reduction equals the sum of the single-sample accumulations over whole runs. The claim rests mainly on the tie: a relational (2-safety) comparison on the REAL code — a batch-B component vs B separately constructed batch-1 copies with the same parameters, every step, every state attribute: 8 neuron classes (adaptation frozen), 4 synapses, 4 connections with/without heterogeneous delays, Serial/Biclique/RecurrentSerial, all 12 trainers with sum reduction.",
+        note="Trusted: Lean kernel + standard axioms; nothing of the real code is re-executed in Lean for this property (no driver). torch picks different summation orders for different batch sizes: half of the connection/layer/trainer cases run in exact dyadic arithmetic with strict torch.equal, the rest compare only floating-point entries downstream of a reduction at 1e-12/1e-9 (spikes, pointers, records exact).",
+        tech="Lean 4 projection/linearity lemmas (thin) + relational differential check batch-B vs B independent batch-1 runs on the real code",
+        ref="DESIGN.md §6 C11"),
+    "C12": dict(
+        text="Theorems (Lean 4, core only): a generic component with save (exactly the persistent entries), strict load and a view of what step reads; resume_equiv / checkpoint_anywhere: restoring a checkpoint taken after ANY prefix into a same-configuration target yields the uninterrupted run for EVERY continuation; composition of components; instances proved for the C01 ring machine (data + pointer), plain and optional buffers, reducer flags/counter, fold reducers, neurons, synapses, accumulators with pending parts (cache cleared on load), the classifier (derived buffers recomputed by the load hook); shape/key mismatches are rejected; excluded cases (lazy shapes, feedback buffer None vs tensor, pending-part count mismatch) are rejected, never silently accepted; necessity witnesses for D31, D32 and a dropped hook. Tied by key-set introspection of every real state_dict, machine correspondence through save/load, and REAL resume runs: every checkpoint step k of runs of length 8/20, serialised through torch.save/load, restored into fresh / stepped / other-data targets, all outputs and the full state compared with torch.equal.",
+        note="Trusted: Lean kernel + standard axioms; hand-written persistence model validated by introspection and correspondence; the state of a target after a REJECTED load is not modelled (torch loads non-atomically).",
+        tech="Lean 4 generic resume theorem (load(save s) agrees with s on every field step reads) + real checkpoint/restore differential at every step",
+        ref="DESIGN.md §6 C12"),
     "C13": dict(
         text="Theorems (Lean 4, core only): resizing a record from EVERY well-formed ring state keeps the newest min(old,new) observations at the same offsets and fills older new slots with zeros; the size formula max(ceil(duration/dt)+inclusive, 1) over rationals (ceil is the least m with m*dt >= duration) is an invariant over any op sequence in which no setter raised (generic in how the quotient is rounded, so also for the float quotient); temporal setters do not fail on uninitialised storage; the code-shaped machine (setters, reconstrain, push, value := ignored, initialize) refines the newest-first-list specification over all op lists; constraint bookkeeping: valid iff all constraints hold, incompatible add refused without side effect, remove never alters data, edit resizes only the edited dim. Tied by per-op correspondence from every ring state and storage kind, strict/non-strict, positive/negative dims.",
         note="Trusted: Lean kernel + standard axioms; hand-written model of ShapedTensor/RecordTensor resize and constraint helpers validated by correspondence; size formula over exact rationals, IEEE quotient divergences counted in the evidence — partial (float); a non-strict user constraint aliasing the record dim is outside the claimed domain (setter raises after storing dt).",
